@@ -272,7 +272,7 @@ func verifyAuthClaimInclusion(issuerData IssuerData,
 	if err != nil {
 		return err
 	}
-	if !merkletree.VerifyProof(claimsTreeRoot, issuerData.MTP, hi, hv) {
+	if !verifyMerkleTreeProof(claimsTreeRoot, issuerData.MTP, hi, hv) {
 		return errors.New("auth claim is not included in the issuer's claims tree")
 	}
 	return nil
@@ -393,7 +393,7 @@ func verifyIden3SparseMerkleTreeProof(ctx context.Context,
 	if !proof.MTP.Existence {
 		return errors.New("merkle tree proof is not a proof of existence")
 	}
-	rootFromProof, err := merkletree.RootFromProof(proof.MTP, hi, hv)
+	rootFromProof, err := rootFromMerkleTreeProof(proof.MTP, hi, hv)
 	if err != nil {
 		return err
 	}
